@@ -156,15 +156,18 @@ def vIndex (v : Val) (i : Nat) : Val :=
     | none => .str []
   | _ => .list b!"[]int" []
 
-/-- bounds computed by `filterSlice` -/
-def sliceBounds (len from_ to_ : Int) (toMissing : Bool) : Nat × Nat :=
+/-- bounds computed by `filterSlice` (as Go ints) -/
+def sliceBoundsI (len from_ to_ : Int) (toMissing : Bool) : Int × Int :=
   let from1 := if from_ < 0 then max (len + from_) 0 else from_
   let from2 := if from1 > len then len else from1
   let vto := if toMissing then len else to_
   let vto1 := if vto < 0 then max (len + vto) 0 else vto
   let vto2 := if vto1 < from2 then from2 else vto1
   let to2 := if vto2 ≥ from2 && vto2 ≤ len then vto2 else len
-  (from2.toNat, to2.toNat)
+  (from2, to2)
+
+def sliceBounds (len from_ to_ : Int) (toMissing : Bool) : Nat × Nat :=
+  ((sliceBoundsI len from_ to_ toMissing).1.toNat, (sliceBoundsI len from_ to_ toMissing).2.toNat)
 
 /-- `Value.Slice(i, j)` with `0 ≤ i ≤ j ≤ len` -/
 def vSlice (v : Val) (i j : Nat) : Val :=
@@ -253,7 +256,13 @@ def applyFilter (name : Bytes) (i p : V) : FRes :=
     let idx := p.v.toInt.toInt
     let l : Int := s.length
     if idx ≤ 0 || idx > l then .ok i
-    else .ok ⟨.uint (UInt64.ofNat ((s.getD (l - idx).toNat 0) - 48).toNat), false⟩
+    else
+      let whole := match s with
+        | 0x2d :: t => t ≠ [] && t.all isDigit
+        | _ => s.all isDigit
+      let d := s.getD (l - idx).toNat 0
+      if !whole || d == 0x2d then .ok i
+      else .ok ⟨.uint (UInt64.ofNat (d - 48).toNat), false⟩
   else if name == b!"iriencode" then mkStr (iriencode s)
   else if name == b!"join" then
     if !i.v.canSlice then .ok i
@@ -273,15 +282,13 @@ def applyFilter (name : Bytes) (i p : V) : FRes :=
     if times > maxCharPadding then .err "ljust: too much padding"
     else mkStr (s ++ Bytes.spaces times.toNat)
   else if name == b!"rjust" then
-    let padding := p.v.toInt.toInt
+    let padding0 := p.v.toInt.toInt
+    let padding := if padding0 < 0 then 0 else padding0
     if padding > maxCharPadding then .err "rjust: too much padding"
     else
-      -- fmt.Sprintf("%{padding}s", s): pads on the left to `padding` runes;
-      -- a negative width pads on the right
+      -- fmt.Sprintf("%{padding}s", s) with padding ≥ 0: pads on the left to `padding` runes
       let n := (Utf8.runes s).length
-      if padding ≥ 0 then mkStr (Bytes.spaces (padding.toNat - n) ++ s)
-      else if -padding > 1000000 then .unsupported   -- fmt rejects widths above 1e6 (prints %!(BADWIDTH))
-      else mkStr (s ++ Bytes.spaces ((-padding).toNat - n))
+      mkStr (Bytes.spaces (padding.toNat - n) ++ s)
   else if name == b!"lower" then if isAscii s then mkStr (s.map asciiLower) else .unsupported
   else if name == b!"upper" then if isAscii s then mkStr (s.map asciiUpper) else .unsupported
   else if name == b!"make_list" then .ok ⟨.list b!"[]string" ((Utf8.runeStrings s).map Val.str), false⟩
@@ -304,11 +311,10 @@ def applyFilter (name : Bytes) (i p : V) : FRes :=
       let c1 := comp.getD 1 []
       let (f, t) := sliceBounds i.v.len (Val.str c0).toInt.toInt (Val.str c1).toInt.toInt (trimSpace c1 = [])
       match i.v.resolved with
-      | arr .. => .err "panic: slice of unaddressable array"
       | _ => .ok ⟨vSlice i.v f t, false⟩
   else if name == b!"split" then
     let sep := p.v.toS
-    if sep = [] then .ok ⟨.list b!"[]string" ((Utf8.runeStrings s).map Val.str), false⟩   -- strings.Split(s, "") explodes into runes
+    if sep = [] then .ok ⟨.list b!"[]string" ((runeChunks s).map fun c => Val.str c.2), false⟩   -- strings.Split(s, "") explodes into UTF-8 sequences (invalid bytes stay as they are)
     else .ok ⟨.list b!"[]string" ((Bytes.splitOn sep s).map Val.str), false⟩
   else if name == b!"striptags" then mkStr (striptags s)
   else if name == b!"truncatechars" then mkStr (truncatecharsHelper s p.v.toInt.toInt)
